@@ -405,6 +405,10 @@ func propCases(prop string, g *Gen, n int) []*Case {
 		for _, r := range enumPairs(g) {
 			add(&Case{R: r, Obs: obs, Oracles: []string{"C01"}})
 		}
+		// a message that consists of the separator alone: fmt.Errorf(": %w", err)
+		for _, r := range colonOnlyShapes() {
+			add(&Case{R: r, Obs: obs, Oracles: []string{"C01"}})
+		}
 		for i := 0; i < n; i++ {
 			add(&Case{R: g.Tree(1 + g.r.intn(6)), Obs: obs, Oracles: []string{"C01"}})
 		}
@@ -520,6 +524,11 @@ func propCases(prop string, g *Gen, n int) []*Case {
 					add(&Case{R: r, Obs: names("text", "shape"), Oracles: []string{"C04"}, Hops: hops})
 				}
 			}
+		}
+		// a message that consists of the separator alone: fmt.Errorf(": %w", err)
+		for _, r := range colonOnlyShapes() {
+			hops := [][][]string{{g.proc(1)}, {g.proc(2)}, g.hopSeq(2, false), {g.proc(1), {}}}
+			add(&Case{R: r, Obs: names("text", "shape"), Oracles: []string{"C04"}, Hops: hops})
 		}
 		for i := 0; i < n; i++ {
 			r := g.Tree(1 + g.r.intn(5))
@@ -1143,4 +1152,14 @@ func nilCases(g *Gen) []*R {
 		{Op: "stdnew", S: []string{"x"}},
 	}
 	return out
+}
+
+// errors whose wrapper message is the separator alone
+func colonOnlyShapes() []*R {
+	mk := func(leaf *R) *R {
+		return &R{Op: "fmterrorf", Fmt: []FP{{Kind: "lit", S: ": "}, {Kind: "err", Verb: "w", R: leaf}}}
+	}
+	a := mk(&R{Op: "stdnew", S: []string{"boom"}})
+	b := mk(&R{Op: "new", S: []string{"disk full"}})
+	return []*R{a, {Op: "wrap", S: []string{"ctx"}, Kids: []*R{cloneR(a)}}, b, {Op: "hint", S: []string{"h"}, Kids: []*R{cloneR(b)}}}
 }
